@@ -863,7 +863,8 @@ func TestDeterministic(t *testing.T) {
 		case "plugin":
 			c.Args, c.Plugin, backend, opts = []string{"-g", "go", "-r"}, "record", "go", nil
 		}
-		if backend == "go" && optOn(opts, "with_reflection") && vt.Known(prop, fReflDesc) {
+		// (the fastgo backend writes the same *-reflection.go files)
+		if optOn(opts, "with_reflection") && vt.Known(prop, fReflDesc) {
 			c.Modulo = append(c.Modulo, fReflDesc)
 			vt.Excluded(fReflDesc)
 		}
